@@ -280,6 +280,11 @@ func (f *framer) Handle0RTTRejection() {
 	for id := range f.activeStreams {
 		delete(f.activeStreams, id)
 	}
+	// The streams are discarded: a RESET_STREAM, STOP_SENDING or MAX_STREAM_DATA one of them still has queued
+	// refers to a stream the server never saw (its final size would be charged against the new limits).
+	for id := range f.streamsWithControlFrames {
+		delete(f.streamsWithControlFrames, id)
+	}
 	var j int
 	for i, frame := range f.controlFrames {
 		switch frame.(type) {
